@@ -23,7 +23,7 @@ fn gen_def(rng: &mut Rng, cid: usize, stats: &mut Stats) -> String {
     let mut consts: Vec<(String, String)> = vec![];
     for (k, vs) in [("k", ["1", "2", ""]), ("z", ["é\n", "a\"b", "\\"])] { if rng.chance(40) { consts.push((k.to_string(), rng.pick(&vs).to_string())); } }
     stats.hit(&format!("def:{}", kind));
-    let vals = [0.0, 1.0, 2.5, 1e21, 0.1, 123456789.0];
+    let vals = [0.0, 1.0, 2.5, 1e21, 0.1, 123456789.0, -0.0, -1.5];
     match kind {
         "pulling" => format!("c16 def c{} kind=pulling name={} help={} consts=- vars=- val={}", cid, hex(&name), hex(help), f64_hex(*rng.pick(&vals))),
         "countervec" | "gaugevec" | "histogramvec" => {
@@ -32,7 +32,7 @@ fn gen_def(rng: &mut Rng, cid: usize, stats: &mut Stats) -> String {
             for _ in 0..rng.below(4) { let t: Vec<String> = vars.iter().map(|_| rng.pick(&pool).to_string()).collect(); if seen.insert(t.clone()) { ch.push(hex_list(&t)); } }
             format!("c16 def c{} kind={} name={} help={} consts={} vars={} children={}", cid, kind, hex(&name), hex(help), pairs_str(&consts), hex_list(&vars), if ch.is_empty() { "none".to_string() } else { ch.join(";") }) }
         "histogram" => format!("c16 def c{} kind=histogram name={} help={} consts={} vars=- obs={}", cid, hex(&name), hex(help), pairs_str(&consts), f64_list(&(0..rng.below(4)).map(|_| *rng.pick(&[0.25, 0.5, 1.0, 3.0])).collect::<Vec<_>>())),
-        _ => format!("c16 def c{} kind={} name={} help={} consts={} vars=- val={}", cid, kind, hex(&name), hex(help), pairs_str(&consts), f64_hex(if kind.starts_with("int") { rng.below(9) as f64 } else { *rng.pick(&vals) })),
+        _ => format!("c16 def c{} kind={} name={} help={} consts={} vars=- val={}", cid, kind, hex(&name), hex(help), pairs_str(&consts), f64_hex(if kind.starts_with("int") { rng.below(9) as f64 } else if kind == "counter" { *rng.pick(&vals[..7]) } else { *rng.pick(&vals) })),   // a counter cannot be decreased
     }
 }
 
@@ -55,10 +55,10 @@ impl Area for C16Area {
             let o = |rng: &mut Rng, pool: &[&str]| -> String { if rng.chance(35) { "none".to_string() } else { hex_list(&[rng.pick(pool)]) } };
             let name = if rng.chance(15) { "none".to_string() } else { hex_list(&[rng.pick(&["raw", "r:x"])]) };
             let ty = *rng.pick(&["counter", "gauge", "none", "none"]);
-            let (cv, gv) = match rng.below(3) { 0 => (f64_hex(*rng.pick(&[1.0, 2.5, 0.0])), "none".to_string()), 1 => ("none".to_string(), f64_hex(*rng.pick(&[3.0, -1.0]))), _ => ("none".to_string(), "none".to_string()) };
+            let (cv, gv) = match rng.below(3) { 0 => (f64_hex(*rng.pick(&[1.0, 2.5, 0.0, -0.0])), "none".to_string()), 1 => ("none".to_string(), f64_hex(*rng.pick(&[3.0, -1.0, -0.0, 0.0]))), _ => ("none".to_string(), "none".to_string()) };
             let label = rng.chance(50);
             stats.hit("raw-family");
-            lines.push(format!("c16 raw name={} help={} type={} label={} lname={} lval={} cv={} gv={} ts={}", name, o(rng, &["h", "é\n"]), ty, if label { "yes" } else { "no" }, o(rng, &["l", "k"]), o(rng, &["v", "\"q\""]), cv, gv, rng.pick(&["none", "none", "5", "-7"])));
+            lines.push(format!("c16 raw name={} help={} type={} label={} lname={} lval={} cv={} gv={} ts={}", name, o(rng, &["h", "é\n"]), ty, if label { "yes" } else { "no" }, o(rng, &["l", "k"]), o(rng, &["v", "\"q\""]), cv, gv, rng.pick(&["none", "none", "5", "-7", "0"])));
         }
         lines
     }
